@@ -353,7 +353,8 @@ func (l *List) M__mul__(other Object) (Object, error) {
 			// nothing to repeat (and int(b) * m may not overflow)
 			return NewList(), nil
 		}
-		const maxInt = int(^uint(0) >> 1)
+		// make() panics rather than returning an error for lengths it can never allocate
+		const maxInt = 1 << 40
 		if int(b) > maxInt/m {
 			return nil, ExceptionNewf(MemoryError, "repeated list is too long")
 		}
